@@ -26,3 +26,8 @@ Print Assumptions C19_silent_forever_dropped.
 Theorem C19_zero_means_default : deadline_ms 0 = 36000.
 Proof. exact KeepAlive.zero_means_default. Qed.
 Print Assumptions C19_zero_means_default.
+
+(* the deadline is re-armed by every read on the socket (read off timeoutReader.Read) *)
+Theorem C19_rearmed_every_read : Gen.Tables.reader_rearms_every_read = true.
+Proof. reflexivity. Qed.
+Print Assumptions C19_rearmed_every_read.
